@@ -145,6 +145,9 @@ def build_and_run(job):
         kw.update(max_iter=400, max_cg_iter=10, rho=[1.0, 0.5][variant % 2])
     if variant >= 2:
         kw.update(x=(np.array([[0.3], [-0.7]]) + (0.1j if cplx else 0)).astype(y.dtype))
+    if job.get("x32"):
+        # warm start whose dtype differs from the data's (float32 / complex64): the solution must still be written into it
+        kw.update(x=(np.array([[0.3], [-0.7]]) + (0.1j if cplx else 0)).astype(np.complex64 if cplx else np.float32))
     np.random.seed(seed)
     res = {"opt": o, "variant": variant, "cplx": cplx, "eff": eff}
     with warnings.catch_warnings():
@@ -158,6 +161,9 @@ def build_and_run(job):
     res["x"] = [complex(v) for v in np.asarray(x).ravel()]
     res["f"] = objective(A, y, zz, lam, o["proxg"], Gm, np.asarray(x))
     res["returned_is_app_x"] = bool(x is ap.x)
+    held = getattr(ap.alg, "x", None)
+    res["returned_equals_alg_x"] = bool(held is None or (np.shape(held) == np.shape(x) and np.allclose(np.asarray(held), np.asarray(x), rtol=1e-5, atol=1e-6)))
+    res["x32"] = bool(job.get("x32"))
     if "x" in kw:
         res["x_is_callers"] = bool(x is kw["x"])
     xs, fs = optimum(A, y, zz, lam, o["proxg"], Gm)
@@ -199,12 +205,14 @@ def run(ctx):
         for v in range(nvar):
             for cplx in ([False, True] if o["proxg"] in ("None", "l2") else [False]):
                 jobs.append({"opt": o, "variant": v + (2 if (v % 2 and ctx.seed % 2) else 0) * 0, "cplx": cplx, "seed": ctx.seed + v, "phase": st["phase"]})
+        if st["phase"] == "ready":
+            jobs.append({"opt": o, "variant": 0, "cplx": o["proxg"] in ("None", "l2") and (len(jobs) % 2 == 0), "seed": ctx.seed, "phase": st["phase"], "x32": True})
     with mp.get_context("fork").Pool(16) as pool:
         results = pool.map(build_and_run, jobs, chunksize=4)
     by_problem = {}
     for job, res in zip(jobs, results):
         o = job["opt"]
-        key = {"solver": o["solver"], "lamda": o["lamda"], "z": o["z"], "proxg": o["proxg"], "G": o["G"], "variant": job["variant"], "complex": job["cplx"]}
+        key = {"solver": o["solver"], "lamda": o["lamda"], "z": o["z"], "proxg": o["proxg"], "G": o["G"], "variant": job["variant"], "complex": job["cplx"], "x32": bool(job.get("x32"))}
         r.traces += 1
         r.evaluations += 1
         r.nontrivial += 1
@@ -217,10 +225,12 @@ def run(ctx):
             r.violations.append(core.Violation(["C14"], "lls", dict(key, kind="supported_raises"), "supported configuration raised %s" % res["raised"], {"result": res}))
             continue
         gap = res["f"] - res["fstar"]
-        tol = 2e-3 * max(1.0, abs(res["fstar"]))
+        tol = 2e-3 * max(1.0, abs(res["fstar"]))     # (float32 warm starts reach ~1e-6 relative: well inside)
         if not np.isfinite(res["f"]) or gap > tol:
             r.violations.append(core.Violation(["C14"], "lls", dict(key, kind="not_minimiser", eff=res["eff"]),
                                                "documented objective at the returned x is %.6g, optimum %.6g (gap %.3g > %.3g); x = %s, x* = %s" % (res["f"], res["fstar"], gap, tol, res["x"], res["xstar"]), {"result": res}))
+        if not res.get("returned_equals_alg_x", True):
+            r.violations.append(core.Violation(["C15", "C14"], "lls", dict(key, kind="returns_other_than_alg_holds"), "App.run() returned an array that differs from the solution the algorithm holds (alg.x)", {"result": res}))
         if not res.get("returned_is_app_x", True) or res.get("x_is_callers") is False:
             r.violations.append(core.Violation(["C14", "C15"], "lls", dict(key, kind="not_callers_array"), "run() did not return the caller's / the app's x array", {"result": res}))
         pk = (o["lamda"], o["z"], o["proxg"], o["G"], job["cplx"], job["seed"])
@@ -230,4 +240,5 @@ def run(ctx):
     nrej = sum(1 for j in jobs if j["phase"] == "rejected")
     r.notes.append("%d configurations x variants replayed (%d expected rejections)" % (len(jobs), nrej))
     r.count("C14", r.traces, r.evaluations, r.nontrivial)
+    r.count("C15", r.traces, r.evaluations, r.nontrivial)
     return r
